@@ -318,21 +318,31 @@ GRID_VOCAB = [
     V(r"\bravel_idx\(", "ravel_idx(m_shape1, "),
     V(r"m_shape\[([01])\]", r"m_shape\1"),
 ]
-SLOT_A = "coded_off[2 * OFFCAP * CODE(GR, GC) + %d]"
+SLOT_A = "coded_off[2 * OFFCAP * CODE_K + %d]"
 
 
-def indices_unit():
-    inrange = " && ".join("(%d < coded_n[CODE(GR, GC)] ==> ((ptrdiff_t) GR + %s >= 0 && (ptrdiff_t) GR + %s < (ptrdiff_t) m_shape0 "
-                          "&& (ptrdiff_t) GC + %s >= 0 && (ptrdiff_t) GC + %s < (ptrdiff_t) m_shape1))" %
-                          (i, SLOT_A % (2 * i), SLOT_A % (2 * i), SLOT_A % (2 * i + 1), SLOT_A % (2 * i + 1)) for i in range(OFFCAP))
-    post = " && ".join("(%d < coded_n[CODE(GR, GC)] ==> neighbors[%d] == (size_t) ((ptrdiff_t) GR + %s) * m_shape1 + (size_t) ((ptrdiff_t) GC + %s))" %
-                       (i, i, SLOT_A % (2 * i), SLOT_A % (2 * i + 1)) for i in range(OFFCAP))
+def indices_unit(conn):
+    """one location code per group (CODE_K), one obligation per (slot, step): with the step fixed the flat-index equality has
+    constant offsets (+-1, 0, +-(dim - 1)) and is a polynomial identity the SMT rewriter normalises"""
+    steps = STEPS[conn]
+    spec_def = " && ".join("SA[%d] == (ADM_R(GR, %d) && ADM_C(GC, %d)) && SR[%d] == (ptrdiff_t) TGT_R(GR, %d) - (ptrdiff_t) GR "
+                           "&& SC[%d] == (ptrdiff_t) TGT_C(GC, %d) - (ptrdiff_t) GC" % (j, dr, dc, j, dr, j, dc)
+                           for j, (dr, dc) in enumerate(steps))
+    # producer instance (raster.coded_offsets.<conn>.code<K>): every listed offset is the spec offset of some admissible step
+    inrange = " && ".join("(%d < coded_n[CODE_K] ==> (%s))" % (i, " || ".join(
+        "(SA[%d] && %s == SR[%d] && %s == SC[%d])" % (j, SLOT_A % (2 * i), j, SLOT_A % (2 * i + 1), j) for j in range(len(steps))))
+        for i in range(NBMAX[conn]))
+    post = " && ".join("((%d < coded_n[CODE_K] && SA[%d] && %s == SR[%d] && %s == SC[%d]) ==> neighbors[%d] == TGT_R(GR, %d) * m_shape1 + TGT_C(GC, %d))" %
+                       (i, j, SLOT_A % (2 * i), j, SLOT_A % (2 * i + 1), j, i, dr, dc)
+                       for i in range(NBMAX[conn]) for j, (dr, dc) in enumerate(steps))
+    post = "SPEC_DEF_I ==> (%s)" % post
+    inrange = "SPEC_DEF_I && " + inrange
     return Unit(
         name="raster_neighbors_indices_impl", file=RG_H,
         anchor=r"inline auto raster_grid<S, RC, C>::neighbors_indices_impl\(\s*neighbors_indices_impl_type& neighbors, const size_type& idx\) const -> void",
         sig="void raster_neighbors_indices_impl(size_t *neighbors, size_t idx, size_t m_shape0, size_t m_shape1, size_t m_size, "
-            "const uint8_t *m_nodes_codes, const ptrdiff_t *coded_off, const size_t *coded_n)",
-        pre=GEO.replace("bs->", "BS_UNUSED->") + ACC,
+            "const uint8_t *m_nodes_codes, const ptrdiff_t *coded_off, const size_t *coded_n, const struct rbs *bs)",
+        pre=GEO + ACC + "#define SPEC_DEF_I (%s)\n" % spec_def,
         rules=GRID_VOCAB + [
             V(r"const auto& offsets =", "const struct offvec offsets ="),
             V(r"\boffsets\.size\(\)", "offsets.size"),
@@ -345,33 +355,38 @@ def indices_unit():
 __CPROVER_requires(2 <= m_shape0 && m_shape0 <= DIM_MAX && 2 <= m_shape1 && m_shape1 <= DIM_MAX && m_size <= ((size_t) 1 << 40))
 __CPROVER_requires(__CPROVER_is_fresh(neighbors, NB_MAX * 8) && __CPROVER_is_fresh(m_nodes_codes, m_size))
 __CPROVER_requires(__CPROVER_is_fresh(coded_off, 9 * OFFCAP * 16) && __CPROVER_is_fresh(coded_n, 9 * 8))
+__CPROVER_requires(__CPROVER_is_fresh(bs, sizeof(*bs)) && BS_SYM(bs))   /* ghost parameter: the borders, for the geometric spec only */
 /* the queried node is the ghost node (GR, GC) */
 __CPROVER_requires(GR < m_shape0 && GC < m_shape1 && idx == GR * m_shape1 + GC && idx < m_size)
 /* instances of the producers' postconditions: code table (raster.codes), offset lists (raster.coded_offsets.*: every listed
  * offset is target - node for an in-range target; at most n_neighbors_max of them) */
+__CPROVER_requires(CODE(GR, GC) == CODE_K)   /* case split over the 9 location codes: one group per code */
 __CPROVER_requires(m_nodes_codes[idx] == CODE(GR, GC))
-__CPROVER_requires(coded_n[CODE(GR, GC)] <= NB_MAX && NB_MAX <= OFFCAP)
+__CPROVER_requires(coded_n[CODE_K] <= NB_MAX && NB_MAX <= OFFCAP)
 __CPROVER_requires(%s)
 __CPROVER_assigns(__CPROVER_object_whole(neighbors))
-/* C07: slot i holds the row-major flat index of (GR + row offset, GC + col offset) */
+/* C07: a slot holding the offset of step (dr, dc) yields the row-major flat index of ((GR + dr) mod nrows, (GC + dc) mod ncols) */
 __CPROVER_ensures(%s)
 """ % (inrange, post))
 
 
-def indices_group(nbmax):
-    u = indices_unit()
-    return Group(name="raster.indices.nb%d" % nbmax, units=[base, u], defines=["NB_MAX=%d" % nbmax],
+def indices_group(conn, k):
+    u = indices_unit(conn)
+    nbmax = NBMAX[conn]
+    return Group(name="raster.indices.%s.code%d" % (conn, k), units=[base, u], defines=["NB_MAX=%d" % nbmax, "CODE_K=%d" % k],
                  harness=ND + r"""
+ptrdiff_t nondet_ptrdiff_t(void);
 void h_idx(void)
 {
-    size_t *nb; const uint8_t *codes; const ptrdiff_t *off; const size_t *cn;
+    size_t *nb; const uint8_t *codes; const ptrdiff_t *off; const size_t *cn; const struct rbs *bs;
     GR = nondet_size_t(); GC = nondet_size_t();
-    raster_neighbors_indices_impl(nb, nondet_size_t(), nondet_size_t(), nondet_size_t(), nondet_size_t(), codes, off, cn);
+    for (int j = 0; j < 8; ++j) { SA[j] = nondet_bool(); SR[j] = nondet_ptrdiff_t(); SC[j] = nondet_ptrdiff_t(); }
+    raster_neighbors_indices_impl(nb, nondet_size_t(), nondet_size_t(), nondet_size_t(), nondet_size_t(), codes, off, cn, bs);
     __CPROVER_assert(0, "canary: postcondition point reachable");
 }
-""", entry="h_idx", enforce=u.name, unwindset={(u.name, 0): OFFCAP + 1}, backend="cvc5", timeout=600, min_obligations=10,
-                 clause="neighbors_indices_impl (n_neighbors_max = %d): every produced flat index is the row-major index of (row + row offset, "
-                        "col + col offset) of the stored offset list of the node's code; no out-of-range .at(); symbolic shape in [2, 2^20]^2" % nbmax)
+""", entry="h_idx", enforce=u.name, unwindset={(u.name, 0): OFFCAP + 1}, backend="cvc5", timeout=240, min_obligations=10,
+                 clause="neighbors_indices_impl (%s, location code %d): a slot holding the offset of an admissible step yields the row-major flat "
+                        "index of the step's target ((r + dr) mod nrows, (c + dc) mod ncols); no out-of-range .at(); symbolic shape in [2, 2^20]^2" % (conn, k))
 
 
 def count_impl_group(conn):
@@ -612,5 +627,5 @@ void h_psym(void)
 
 CONNS = ["queen", "rook", "bishop"]
 GROUPS = {"C07": [g for c in CONNS for g in [nno_group(c), count_group(c), symmetry_group(c), count_impl_group(c)] + [coded_group(c, k) for k in range(9)]]
-          + [indices_group(8), indices_group(4)] + ravel_groups() + profile_groups() + [profile_symmetry_group()]}
+          + [indices_group(c, k) for c in CONNS for k in range(9)] + ravel_groups() + profile_groups() + [profile_symmetry_group()]}
 PROPS = {"C07": dict(level="other", assumptions=[], undecided=[], unmechanised=[], explanation="")}
